@@ -146,7 +146,7 @@ Proof.
     erewrite map_ext; [exact R|]. intros i. cbn beta. f_equal. lia.
 Qed.
 
-(* arena_eventually_purged (the statement of Proofs/OsOpen.v with the hypothesis that the clock is not negative:
+(* arena_eventually_purged (the statement that was open in Proofs/OsOpen.v with the hypothesis that the clock is not negative:
    _mi_clock_now() returns milliseconds of a monotonic clock; the second unused quantifier `n` dropped) *)
 Theorem arena_eventually_purged st :
   (0 < arena_purge_delay cfg)%Z -> expiry_consistent st ->
@@ -160,7 +160,7 @@ Proof.
 Qed.
 End WithOracle.
 
-(* ---- why the clock must not be negative: the statement as it stood in Proofs/OsOpen.v (any t0) is false in the model.
+(* ---- why the clock must not be negative: the statement as it stood in Proofs/OsOpen.v (removed) (any t0) is false in the model.
    Three pending arenas, global expiry and arena expiries -100, first pass at t0 = -100 (default options: delay 100 ms):
    the pass re-arms the global expiry to now + delay = 0, which reads as "not armed", is cut short after two purging arenas,
    and no later non-forced pass ever visits the third.  _mi_clock_now() never returns a negative value (milliseconds of
